@@ -148,9 +148,12 @@ impl SecondaryTransaction {
                     guard.insert(path, Bytes::from(buf));
                 }
                 _ => {
+                    // A crash after this write and before the manifest append leaves the file behind,
+                    // unreferenced, and recovery hands out the same DV id again: overwrite it.
                     let mut file = tokio::fs::OpenOptions::default()
                         .write(true)
-                        .create_new(true)
+                        .create(true)
+                        .truncate(true)
                         .open(path)
                         .await?;
                     DeleteVector::write_all(&mut file, &deletes).await?;
